@@ -191,15 +191,24 @@ func body(s *simrt.Sim, tier string) {
 			}
 		}
 	}
-	stopped := false
-	s.Go("stopper", func() {
-		cache.Stop()
-		stopped = true
-		if l := s.Live(""); len(l) > 0 {
-			s.Fail("cleaner-alive-after-stop", fmt.Sprintf("Stop returned while the background cleaner is alive: %v", l))
-		}
-	})
-	if !s.Join(time.Hour, "stopper") || !stopped {
+	// Stop: from one or two callers at once (and possibly while the cleaner is in the middle of a
+	// Cleanup); every call must return only after the cleaner goroutine has exited
+	nstop := 1 + s.Choose(2, "stoppers")
+	var snames []string
+	returned := 0
+	for i := 0; i < nstop; i++ {
+		name := fmt.Sprintf("stopper%d", i)
+		snames = append(snames, name)
+		s.Go(name, func() {
+			s.Yield("stop")
+			cache.Stop()
+			returned++
+			if l := s.Live(""); len(l) > 0 {
+				s.Fail("cleaner-alive-after-stop", fmt.Sprintf("Stop returned (caller %s of %d) while the background cleaner is alive: %v", name, nstop, l))
+			}
+		})
+	}
+	if !s.Join(time.Hour, snames...) || returned != nstop {
 		s.Fail("stop-hang", "Stop did not return\n"+s.Dump())
 	}
 }
